@@ -15,7 +15,7 @@ CLAIMED = {
             "Proof: every clause of the property is a Lean theorem over the conversion tables regenerated from the Rust source on each run (identity, linearity, 0.1% round trip, 0.1% physical factor, create_time/create_speed/create_energy definitions and rejection), for all magnitudes in any linearly ordered field. The constructors' code shape is guarded by the translator and their behaviour tied by a bit-exact differential run on every unit combination.",
             "§5 C09"),
     "C16": ("Lean 4 theorems over an executable model of the two r-tree map matchers (selection = head of the nearest-first candidate list, first admissible edge, the tolerance comparisons and unit conversions exactly as coded, the JSON field writes) + bit-exact correspondence run against the real plugins built through their builders + independent exhaustive-scan / haversine oracle",
-            "Proof, thin on proof content and said so: squared coordinate distances, great-circle distances (haversine) and vehicle-restriction verdicts are input tables computed by the harness with the real functions, and rstar's nearest-first order is a hypothesis (Sorted) checked on every generated case; given that, 'nearest' is 'head of a sorted list'. Proved for all inputs: the vertex written is an arg-min of distance_2 over all vertices and equals an exhaustive scan; the vertex plugin succeeds iff the nearest vertex's distance converted into the tolerance unit is < the tolerance (cut-off t/k(u) metres with the code's own table factor), origin and destination; an edge match is the first admissible candidate and no admissible candidate is nearer; every field other than the two written ones keeps value and relative order (non-object queries untouched), an edge-plugin error leaves the query untouched; the destination is optional. the edge match is made exactly when the nearest admissible candidate's great-circle distance, converted into the tolerance unit, is <= the tolerance (edge_tolerance; the former units defect edge-match/tolerance-units is kept as a regression example and corpus witness). PARTIAL on the vertex tolerance clause only: the vertex matcher rejects a distance exactly equal to the tolerance (vertex_tolerance_partial / vertex_tolerance_boundary_counterexample, key vertex-match/tolerance-boundary). The tie to the code is differential (every outcome line and updated query identical on generated cases), not a proof.",
+            "Proof, thin on proof content and said so: squared coordinate distances, great-circle distances (haversine) and vehicle-restriction verdicts are input tables computed by the harness with the real functions, and rstar's nearest-first order is a hypothesis (Sorted) checked on every generated case; given that, 'nearest' is 'head of a sorted list'. Proved for all inputs: the vertex written is an arg-min of distance_2 over all vertices and equals an exhaustive scan; the vertex plugin succeeds iff the nearest vertex's distance converted into the tolerance unit is <= the tolerance (cut-off t/k(u) metres with the code's own table factor), origin and destination; an edge match is the first admissible candidate and no admissible candidate is nearer; every field other than the two written ones keeps value and relative order (non-object queries untouched), an edge-plugin error leaves the query untouched; the destination is optional. the edge match is made exactly when the nearest admissible candidate's great-circle distance, converted into the tolerance unit, is <= the tolerance (edge_tolerance; the former units defect edge-match/tolerance-units is kept as a regression example and corpus witness). The vertex tolerance clause is proved in full as well (the former boundary defect vertex-match/tolerance-boundary — distance == tolerance rejected — is kept as a regression example and corpus witness). The tie to the code is differential (every outcome line and updated query identical on generated cases), not a proof.",
             "§5 C16"),
 }
 
